@@ -55,6 +55,7 @@ func (x *explorer) byzMenu(b int, R int32) []int32 {
 		name := fmt.Sprintf("B%d", p)
 		x.mt.nameBlock(blk.ID(), name)
 		x.mt.namePS(blk.partSet().ID().Hash, name)
+		x.mt.registerBlock(name, blk)
 		dup := false
 		for _, v := range vals {
 			if v.name == name {
@@ -77,6 +78,7 @@ func (x *explorer) byzMenu(b int, R int32) []int32 {
 				Timestamp: env.blockTS(b, 1), Tag: "byz" + tag}, env.vl)
 			x.mt.nameBlock(blk.ID(), tag)
 			x.mt.namePS(blk.partSet().ID().Hash, tag)
+			x.mt.registerBlock(tag, blk)
 			vals = append(vals, val{blk, tag})
 		}
 	}
@@ -140,6 +142,8 @@ type c01Config struct {
 	Strategy    string `json:"byz_strategy"` // "" silent (menu only through deviations) | "own" | "nil" | "echo"
 	Lag         *int   `json:"lagging_node,omitempty"` // default scheduler serves this node last
 	PCFirst     bool   `json:"precommits_first,omitempty"`
+	LagParts    bool   `json:"lagging_node_gets_parts_late,omitempty"`
+	BlockResults bool  `json:"block_results,omitempty"` // deviation: Byzantine peer delivers a fast-sync block result (block, chosen commit votes)
 	Base        string `json:"base_schedule"` // "" | "B3": the search starts from the state the base schedule reaches
 	BudgetS    int    `json:"budget_s"`
 }
@@ -193,6 +197,22 @@ func runC01Config(cfg c01Config) *c01Result {
 	stop := func() bool { return time.Now().After(deadline) }
 	var res *gResult
 	execs := 0
+	if cfg.BlockResults && cfg.Byz >= 0 {
+		var names []string
+		for name := range x.mt.blocks {
+			names = append(names, name)
+		}
+		sort.Strings(names)
+		for _, name := range names {
+			for r := int32(0); r <= cfg.R; r++ {
+				for m := uint8(0); m < 1<<uint(env.n); m++ {
+					if m&(1<<uint(cfg.Byz)) != 0 {
+						x.brs = append(x.brs, brDesc{block: name, round: r, mask: m})
+					}
+				}
+			}
+		}
+	}
 	if cfg.Mode == "dev" {
 		var pre allowSet
 		for mi, m := range bag {
@@ -206,8 +226,8 @@ func runC01Config(cfg c01Config) *c01Result {
 				if (mm.Kind == "prevote" || mm.Kind == "precommit") && mm.Block == "nil" {
 					pre.add(mi)
 				}
-			case "echo": // votes for every block the correct proposers propose (equivocating across values)
-				if (mm.Kind == "prevote" || mm.Kind == "precommit") && strings.HasPrefix(mm.Block, "B") {
+			case "echo": // in every round votes for the block of that round's (correct) proposer
+				if (mm.Kind == "prevote" || mm.Kind == "precommit") && mm.Block == fmt.Sprintf("B%d", proposerOf(env.n, mm.Round)) {
 					pre.add(mi)
 				}
 			}
@@ -241,11 +261,15 @@ func runC01Config(cfg c01Config) *c01Result {
 		if cfg.Lag != nil {
 			lag = *cfg.Lag
 		}
-		dr := x.searchDev(devCfg{lagNode: lag, pcFirst: cfg.PCFirst, maxDev: cfg.Dev, maxCrashes: cfg.Crashes, menu: bag, byz: cfg.Byz, stop: stop,
+		dr := x.searchDev(devCfg{lagNode: lag, pcFirst: cfg.PCFirst, lagParts: cfg.LagParts, maxDev: cfg.Dev, maxCrashes: cfg.Crashes, menu: bag, byz: cfg.Byz, stop: stop,
 			maxStates: cfg.MaxStates, reorder: cfg.Reorder, crashInside: cfg.CrashInside, preAllow: pre, preAllowNode: preNode, prefix: prefix})
 		res = &gResult{states: dr.states, transitions: dr.transitions, complete: dr.complete, depth: dr.maxDepth,
 			violations: dr.violations, finals: dr.finals, capHit: dr.capHit}
 		execs = dr.executions
+		if execs == 0 && res.complete {
+			// vacuity guard: the default schedule never ran to quiescence (it cycled back into a visited state)
+			res.complete, res.capHit = false, "vacuous: default schedule produced no complete execution"
+		}
 	} else if cfg.Mode == "vis" {
 		dr := x.searchVis(visCfg{maxRound: cfg.R, maxCrashes: cfg.Crashes, byz: cfg.Byz, menu: bag, stop: stop, maxStates: cfg.MaxStates})
 		res = &gResult{states: dr.states, transitions: dr.transitions, complete: dr.complete, depth: dr.maxDepth,
@@ -365,6 +389,12 @@ func c01Configs(thorough bool) []c01Config {
 		add("C-byz3-R1-crash1-dev1", 3, 1, 1, "dev", 1, false, 0)
 		addS("S-byz3-own-R2-dev1", 3, 2, 0, 1, "own", "")
 		addS("S-byz3-echo-R2-dev1", 3, 2, 0, 1, "echo", "")
+		addS("F-byz3-echo-R1-blockresults-partsLateV0-dev1", 3, 1, 0, 1, "echo", "")
+		{
+			z := 0
+			c := &cs[len(cs)-1]
+			c.BlockResults, c.Lag, c.LagParts = true, &z, true
+		}
 		addS("S-byz1-equivocate-R1-dev1", 1, 1, 0, 1, "equivocate", "")
 		addS("S-byz1-equivocate-R1-lagV0-pcfirst-dev1", 1, 1, 0, 1, "equivocate", "")
 		{
@@ -391,6 +421,18 @@ func c01Configs(thorough bool) []c01Config {
 		addS("B3-byz3-"+st+"-R3-crash1-dev2", 3, 3, 1, 2, st, "B3")
 	}
 	addS("B3-byz3-silent-R3-crash1-dev2", 3, 3, 1, 2, "", "B3")
+	for _, st := range []string{"own", "echo", "equivocate"} {
+		addS("F-byz3-"+st+"-R1-blockresults-dev2", 3, 1, 0, 2, st, "")
+		cs[len(cs)-1].BlockResults = true
+		addS("F-byz1-"+st+"-R1-blockresults-dev2", 1, 1, 0, 2, st, "")
+		cs[len(cs)-1].BlockResults = true
+		for _, lagv := range []int{0, 2} {
+			z := lagv
+			addS(fmt.Sprintf("F-byz3-%s-R1-blockresults-partsLateV%d-dev2", st, lagv), 3, 1, 0, 2, st, "")
+			c := &cs[len(cs)-1]
+			c.BlockResults, c.Lag, c.LagParts = true, &z, true
+		}
+	}
 	addS("S-byz1-equivocate-R1-dev2", 1, 1, 0, 2, "equivocate", "")
 	for _, lagv := range []int{0, 2, 3} {
 		z := lagv
